@@ -230,6 +230,39 @@ bool drain(World& W)
   return false;
 }
 
+// C16: sink-side settings changed while the program runs. Their effect on statements that are in flight is unspecified,
+// so the change is made at a drained point (everything issued so far is written); every LATER statement is subject to it.
+// Filter names are drawn so that a new filter sorts before, between or after the attached ones.
+void op_sink_settings(World& W)
+{
+  if (W.in_poll || W.sinks.empty()) return;
+  W.log_op("DrainIdle");
+  if (!drain(W)) return;
+  Choices& c = *W.c;
+  int sk = static_cast<int>(c.pick(static_cast<uint32_t>(W.sinks.size())));
+  SinkInfo& S = W.sinks[sk];
+  if (c.pick(3) == 0)
+  {
+    int lvl = static_cast<int>(c.pick(10));
+    if (lvl == 9) lvl = 0;
+    S.raw->set_log_level_filter(static_cast<quill::LogLevel>(lvl));
+    S.level_hist.emplace_back(W.op_counter, lvl);
+    W.lbl_sink_level_changed = true;
+    W.log_op("SetSinkLevel(s" + std::to_string(sk) + "," + kLevelCodes[lvl] + ")");
+  }
+  else
+  {
+    static char const kPrefix[] = {'a', 'f', 'g', 'z', '0'};
+    uint32_t salt = 1 + c.pick(1000);
+    std::string name = std::string{kPrefix[c.pick(5)]} + std::to_string(S.filter_salts.size()) + "_" + std::to_string(W.op_counter);
+    S.raw->add_filter(std::make_unique<FnFilter>(name, salt));
+    S.filter_salts.push_back(salt);
+    S.filter_from.push_back(W.op_counter);
+    W.lbl_filter_added_late = true;
+    W.log_op("AddFilter(s" + std::to_string(sk) + "," + name + ")");
+  }
+}
+
 // C09: after the backend is idle, a fitting statement must be accepted (dropping) / must not stall (blocking)
 void op_drain_then_log(World& W)
 {
@@ -306,6 +339,7 @@ void build_world(World& W, Choices& c, Report& r)
         {
           uint32_t salt = 1 + c.pick(1000);
           S.filter_salts.push_back(salt);
+          S.filter_from.push_back(0);
           S.raw->add_filter(std::make_unique<FnFilter>("f" + std::to_string(f), salt));
         }
       }
@@ -408,8 +442,9 @@ void top_level_op(World& W, Choices& c)
     }
     return;
   }
-  switch (c.weighted({5, 8, 2, 2, 2, 3, 1, is_prop("C09") ? 2u : 0u, is_prop("C16") ? 3u : 0u, is_prop("C05") ? 2u : 0u}))
+  switch (c.weighted({5, 8, 2, 2, 2, 3, 1, is_prop("C09") ? 2u : 0u, is_prop("C16") ? 3u : 0u, is_prop("C05") ? 2u : 0u, is_prop("C16") ? 2u : 0u}))
   {
+  case 10: op_sink_settings(W); break;
   case 9:
     // directed: the backend is idle (every queue empty), then during ONE pass, between the reads of two queues, several
     // threads log and more than the grace period passes
@@ -464,6 +499,8 @@ void classify(World& W, Report& r)
   }
   for (int p = 1; p <= 6; ++p) if (W.bursts_at[p]) r.label("burst_at_Y" + std::to_string(p));
   if (W.lbl_exit_with_pending) r.label("thread_exited_with_unwritten_statements");
+  if (W.lbl_filter_added_late) r.label("sink_filter_added_after_statements");
+  if (W.lbl_sink_level_changed) r.label("sink_level_filter_changed_after_statements");
   if (W.lbl_blocked) r.label("worker_blocked_at_least_once");
   if (W.lbl_stall) r.label("stall_in_clock_read");
   if (W.lbl_first_log_in_y1) r.label("first_log_of_a_thread_inside_Y1");
